@@ -158,15 +158,19 @@ def handle : Handler := fun m j =>
         | some p => p.2
         | none => o
       let detailsFail := (getNats j "details_fail").toOption.getD []
+      let detailsEffect := (getNats j "details_effect").toOption.getD []
       let (b, bodies) ← parseBlock.parseBlocks (← getArr j "block") #[]
       let cfg : Cfg S := {
         impl := fun _ _ arg => match arg with
           | .int n => bodies.getD n.toNat (.done (.raise 1))
           | _ => .done (.raise 1)
         owner := owner
-        details := fun _ _ arg _ => match arg with
-          | .int n => !(detailsFail.contains n.toNat)
-          | _ => true }
+        details := fun _ _ arg s => match arg with
+          | .int n =>
+            if detailsFail.contains n.toNat then none
+            else if detailsEffect.contains n.toNat then some (s ++ [100000 + n.toNat])
+            else some s
+          | _ => some s }
       let runOne := fun (blk : Block S) =>
         let r := runBlock cfg fuel blk (initialWorld [])
         obj [("log", Json.arr (r.1.log.map outJ).toArray),
